@@ -461,12 +461,15 @@ def op_evolve(w, s):
         # the splitting integrators need bonds exactly at the sector caps; they are exact only with a centre (ref/exactness.py)
         full_rank_input, split_exact = chain_exactness(src, e.kind)
     illcond = False
+    worst = 1.0
     if method in ("vmf", "mu_vmf", "mu_cmf"):
         # the regularised inverse (reg_epsilon) freezes directions whose Schmidt weight is far below sqrt(reg_epsilon):
         # the schemes' error order is only claimed for well-conditioned states
         vecp = e.shadow if e.kind == "mps" else dense.op_as_vector(e.shadow, dense.pdims(model))
-        worst = 1.0
         for sv, b in zip(dense.schmidt_spectra(vecp, w.pd(e.mid, e.kind)), e.meta["bonds_before"][1:-1]):
+            if b > len(sv):
+                worst = 0.0      # redundant bond (more labels than the smaller side can fill): the mean-field overlap is singular
+                continue
             k = min(len(sv), b)
             if k and sv[0] > 0:
                 worst = min(worst, float(sv[k - 1] / sv[0]))
@@ -591,6 +594,14 @@ def op_evolve(w, s):
     # with 8x the threshold - so the clock oracle _check_td_times decides the time-dependent adaptive runs instead)
     td_adaptive = False
     judged = sufficient and X_LO <= x <= X_HI and (tdh is None or td_adaptive)
+    # schemes that integrate ODEs on the raw tensors have ABSOLUTE tolerances (ivp_atol): their accuracy claims are for states of
+    # ordinary magnitude only
+    ode_based = method in ("vmf", "mu_vmf") or (method in ("mu_cmf", "ps", "ps2") and c.get("ivp_solver", "krylov") != "krylov")
+    tnorm = float(np.linalg.norm(t_before.ravel()))
+    odd_magnitude = ode_based and not (1e-2 <= tnorm <= 1e2)
+    if judged and odd_magnitude:
+        w.stats.probes["ode_absolute_tolerance_not_judged"] += 1
+        judged = False
     if judged and illcond:
         w.stats.probes["mean_field_illconditioned_not_judged"] += 1
         judged = False
@@ -616,6 +627,10 @@ def op_evolve(w, s):
                                                      f"stepper using the library's own coefficients by {e1:.3e}", sig=f"evolve.layer1:{method}")
     if judged:
         bound, why = scheme_bound(c, ec, x, method, imag, e.kind, split_exact)
+        if method == "mu_cmf" and bound is not None and worst < 1.0:
+            # the constant-mean-field error constant grows with the inverse of the smallest kept Schmidt value (the mean-field
+            # equations contain the inverse reduced density matrix): measured 63 x^3 at a ratio of 0.011
+            bound, why = bound * max(1.0, 1.0 / max(worst, 1e-3)), why + f" x 1/(min kept Schmidt ratio {worst:.3g})"
         if method == "tdrk" and c.get("adaptive") and bound is not None:
             # the controller ACCEPTS a trial step whenever its error estimate is below 2^order x adaptive_rtol (p >= 0.5), so the
             # guaranteed accuracy is (number of steps) x 2^order x adaptive_rtol; the number of trial steps is read off the clock seam
@@ -649,7 +664,7 @@ def op_evolve(w, s):
             raise V({"C09"}, "C09.ps.energy", f"one-site TDVP-PS changed the energy {e0!r} -> {e1_!r} at bonds {src.bond_dims} (x={x:.3g}, solver {c.get('ivp_solver')})")
     # ---- pairwise oracles on the same input
     pair = s.get("pair")
-    if pair and sufficient and not carried and not illcond:
+    if pair and sufficient and not carried and not illcond and not odd_magnitude and (pair.get("kind") != "solver" or 1e-2 <= tnorm <= 1e2):
         _pairwise(w, s, pair, e, eh, c, dt, bond_m, got, x, hn, imag, pid_main, tdh is not None, split_exact)
     return "done"
 
